@@ -176,12 +176,10 @@ fn eval_builtin_incbin(
         }
     };
 
-    if bytes.len() == 0
-    {
-        return Ok(expr::Value::make_integer(util::BigInt::from_bytes_be(&[])));
-    }
-
-    if start >= bytes.len()
+    // Without an explicit range the whole file is taken, even if empty;
+    // an explicit range must lie within the file
+    if query.args.len() >= 2 &&
+        start >= bytes.len()
     {
         query.report.error_span(
             format!(
@@ -192,7 +190,8 @@ fn eval_builtin_incbin(
         return Err(());
     }
 
-    if end > bytes.len()
+    if query.args.len() >= 3 &&
+        end > bytes.len()
     {
         query.report.error_span(
             format!(
